@@ -90,7 +90,9 @@ def handle (cmd : String) (j : J) : Except String J :=
     let t ← (← j.get "t").toRat
     let q ← (← j.get "q").toNat
     let fuel ← (← j.get "fuel").toNat
-    let (P, k) := taylor n rtol5 tol8 Q t q fuel
+    let rtol ← match j.get? "rtol" with | some r => r.toRat | none => pure rtol5
+    let atol ← match j.get? "atol" with | some r => r.toRat | none => pure tol8
+    let (P, k) := taylor n rtol atol Q t q fuel
     pure (J.obj [("P", matJr P), ("k", J.num k)])
   | "expref" => do
     -- reference value of exp(tQ): fixed-order Taylor sum + exact remainder bound
